@@ -209,6 +209,53 @@ def w_sd_reopen_attrs(d):
     return p, [f]
 
 
+def w_sd_dims(d):
+    """dimension metadata: named dimensions, scales, dimension strings/attributes, one dimension in the
+    backward-compatible representation (extra "DimVal0.0" Vdata written at SDend), a shared dimension"""
+    p = Prog()
+    f = os.path.join(d, "sdd.hdf")
+    p.call("i", "SDstart", f, 7, bind="sd")
+    p.call("i", "SDcreate", V("sd"), "a", 22, 2, i32s(3, 4), bind="s")
+    p.call("i", "SDgetdimid", V("s"), 0, bind="d0")
+    p.call("i", "SDsetdimname", V("d0"), "rows")
+    p.call("i", "SDsetdimval_comp", V("d0"), 1)
+    p.call("i", "SDgetdimid", V("s"), 1, bind="d1")
+    p.call("i", "SDsetdimname", V("d1"), "cols")
+    p.call("i", "SDsetdimscale", V("d1"), 4, 5, _vals("float32", 7, 4))
+    p.call("i", "SDsetdimstrs", V("d1"), "columns", "km", "F7.2")
+    p.call("i", "SDsetattr", V("d1"), "dattr", 22, 2, _vals("int16", 8, 2))
+    p.call("i", "SDwritedata", V("s"), i32s(0, 0), None, i32s(3, 4), _vals("int16", 5, 12))
+    p.call("i", "SDendaccess", V("s"))
+    p.call("i", "SDcreate", V("sd"), "b", 24, 1, i32s(4), bind="t")
+    p.call("i", "SDgetdimid", V("t"), 0, bind="e0")
+    p.call("i", "SDsetdimname", V("e0"), "cols")
+    p.call("i", "SDwritedata", V("t"), i32s(0), None, i32s(4), _vals("int32", 6, 4))
+    p.call("i", "SDendaccess", V("t"))
+    p.call("i", "SDend", V("sd"))
+    return p, [f]
+
+
+def w_gr_rle8(d):
+    """an old-style (DFR8) run-length compressed raster image rewritten through GR (compressed raster driver)"""
+    p = Prog()
+    f = os.path.join(d, "r8.hdf")
+    p.call("i", "DFR8addimage", f, bytes((i * 3) & 0xff for i in range(30)), 6, 5, 11)
+    p.call("i", "DFR8restart")
+    p.call("i", "Hopen", f, 3, 0, bind="f")
+    p.call("i", "GRstart", V("f"), bind="gr")
+    p.call("i", "GRselect", V("gr"), 0, bind="ri")
+    p.call("i", "GRreadimage", V("ri"), i32s(0, 0), None, i32s(6, 5), Out(30))
+    p.call("i", "GRwriteimage", V("ri"), i32s(0, 0), None, i32s(6, 5), bytes((i * 7 + 1) & 0xff for i in range(30)))
+    p.call("i", "GRendaccess", V("ri"))
+    p.call("i", "GRend", V("gr"))
+    p.call("i", "Hclose", V("f"))
+    return p, [f]
+
+
+# further write workloads; indices continue after the read-only scans (keeps older replay files valid)
+WORKLOADS2 = [("sd_dims", w_sd_dims), ("gr_rle8", w_gr_rle8)]
+
+
 def w_read_scan(d):
     """build a file fault-free (not traced: separate prelude), then scan it read-only"""
     return None
